@@ -157,11 +157,17 @@ def cooCtor {α} (c : Mat) (d : List α) (s : List Int) (f : α) : Except Err (A
 def decodeAxes (l : List Int) : Option (List Int) :=
   if Gen.npzEmptyAxesAsNone ∧ l = [] then none else some l
 
-/-- `check_compressed_axes(ndim, axes)`: `None` passes; otherwise not all axes, and "sorted without repeats"
-(`axesOk`, a parameter: the code's test `list(set(axes)) == axes` depends on CPython's set order). -/
+/-- `check_compressed_axes(ndim, axes)`: `None` passes; otherwise not all axes, "sorted without repeats"
+(`axesOk`, a parameter: the code's test `list(set(axes)) == axes` depends on CPython's set order), and every
+axis in range — `min(axes)` of an empty sequence raises ValueError as well. -/
 def checkAxes (axesOk : List Int → Bool) (ndim : Nat) : Option (List Int) → Except Err Unit
   | none => .ok ()
-  | some l => if l.length = ndim then .error .value else if ¬ axesOk l then .error .value else .ok ()
+  | some l =>
+    if l.length = ndim then .error .value
+    else if ¬ axesOk l then .error .value
+    else if l = [] then .error .value
+    else if ¬ (l.all fun a => decide (0 ≤ a ∧ a < (ndim : Int))) then .error .value
+    else .ok ()
 
 /-- `if len(shape) == 1: compressed_axes = None` -/
 def normAxes (s : List Int) (ca : Option (List Int)) : Option (List Int) :=
@@ -225,7 +231,7 @@ def Arr.WF {α} (axesOk : List Int → Bool) : Arr α → Prop
   | .gcxs _ s _ _ _ ca _ =>
     match ca with
     | none => True
-    | some l => l ≠ [] ∧ l.length ≠ s.length ∧ s.length ≠ 1 ∧ axesOk l = true
+    | some l => l ≠ [] ∧ l.length ≠ s.length ∧ s.length ≠ 1 ∧ axesOk l = true ∧ ∀ a ∈ l, 0 ≤ a ∧ a < (s.length : Int)
 
 instance {α} (axesOk : List Int → Bool) (x : Arr α) : Decidable (x.WF axesOk) := by
   cases x with
@@ -240,12 +246,12 @@ def gcxsExactTest : Bool :=
 
 /-- the arrays on which the code in /repo (as described by the generated tables) does not round-trip:
 instances of GCXS subclasses while the dispatch tests the exact type, and `compressed_axes = None`
-(fewer than two dimensions) unless `None` is stored as an empty array and decoded again. -/
+(fewer than two dimensions) unless `None` is stored as an empty array and decoded to `None` again. -/
 def Excluded {α} : Arr α → Prop
   | .coo .. => False
-  | .gcxs e s _ _ _ ca _ =>
+  | .gcxs e _ _ _ _ ca _ =>
     (e = false ∧ gcxsExactTest = true)
-    ∨ (ca = none ∧ ¬ (Gen.npzNoneAxesAsEmpty = true ∧ (Gen.npzEmptyAxesAsNone = true ∨ s.length = 1)))
+    ∨ (ca = none ∧ ¬ (Gen.npzNoneAxesAsEmpty = true ∧ Gen.npzEmptyAxesAsNone = true))
 
 instance {α} (x : Arr α) : Decidable (Excluded x) := by
   cases x <;> unfold Excluded <;> infer_instance
